@@ -1414,6 +1414,111 @@ func (*ChannelOfValue).Length
   assigns nothing
   ensures ret == chlen(ch.native)
 
+// ==== C18: equality, hashing and ordering are consistent =====================================
+// comparisons between numbers are comparisons of their mathematical values (NaN excepted)
+spec fn finiteF(f Float) bool = !isNaN(f) && !isInf(f)
+
+func (SmallInt).LessThanFloat
+  props C18
+  ensures exact: finiteF(other) ==> (ret <==> real(i) < real(other))
+
+func (SmallInt).LessThanEqualFloat
+  props C18
+  ensures exact: finiteF(other) ==> (ret <==> real(i) <= real(other))
+
+func (SmallInt).GreaterThanFloat
+  props C18
+  ensures exact: finiteF(other) ==> (ret <==> real(i) > real(other))
+
+func (SmallInt).GreaterThanEqualFloat
+  props C18
+  ensures exact: finiteF(other) ==> (ret <==> real(i) >= real(other))
+
+func (Float).LessThanSmallInt
+  props C18
+  ensures exact: finiteF(f) ==> (ret <==> real(f) < real(other))
+
+func (Float).LessThanEqualSmallInt
+  props C18
+  ensures exact: finiteF(f) ==> (ret <==> real(f) <= real(other))
+
+func (Float).GreaterThanSmallInt
+  props C18
+  ensures exact: finiteF(f) ==> (ret <==> real(f) > real(other))
+
+func (Float).GreaterThanEqualSmallInt
+  props C18
+  ensures exact: finiteF(f) ==> (ret <==> real(f) >= real(other))
+
+func (Float).LessThanFloat
+  props C18
+  ensures exact: finiteF(f) && finiteF(other) ==> (ret <==> real(f) < real(other))
+  ensures nan: isNaN(f) || isNaN(other) ==> !ret
+
+func (Float).LessThanEqualFloat
+  props C18
+  ensures exact: finiteF(f) && finiteF(other) ==> (ret <==> real(f) <= real(other))
+  ensures nan: isNaN(f) || isNaN(other) ==> !ret
+
+func (Float).GreaterThanFloat
+  props C18
+  ensures exact: finiteF(f) && finiteF(other) ==> (ret <==> real(f) > real(other))
+  ensures nan: isNaN(f) || isNaN(other) ==> !ret
+
+func (Float).GreaterThanEqualFloat
+  props C18
+  ensures exact: finiteF(f) && finiteF(other) ==> (ret <==> real(f) >= real(other))
+  ensures nan: isNaN(f) || isNaN(other) ==> !ret
+
+func (Float).EqualFloat
+  props C18
+  ensures exact: finiteF(f) && finiteF(other) ==> (ret <==> real(f) == real(other))
+  ensures nan: isNaN(f) || isNaN(other) ==> !ret
+
+// equal values hash alike: the hash is a function of the canonical bit pattern, where the two
+// zeros (equal under ==) share one pattern
+spec fn fcanon(f Float) Float = ite(f == 0.0, 0.0, f)
+spec fn fhash(f Float) int = uf(xxfin, uf(xxmix, 0, 8, math.Float64bits(float64(fcanon(f)))))
+
+func (Float).Hash
+  props C18 C17
+  ensures fn: ret == fhash(f)
+
+lemma floatHashEq(f Float, g Float)
+  props C18
+  requires !isNaN(f) && !isNaN(g) && f == g
+  ensures fhash(f) == fhash(g)
+
+func (SmallInt).Hash
+  props C18 C17
+  ensures fn: ret == uf(xxfin, uf(xxmix, 0, 8, wrapU64(i)))
+
+func (Float64).Hash
+  props C18
+  ensures fn: ret == uf(xxfin, uf(xxmix, 0, 8, math.Float64bits(float64(ite(f == 0.0, 0.0, f)))))
+
+// =~ between an Int and a Float: equality of the mathematical values, either way round
+func (SmallInt).LaxEqual
+  props C18
+  nosafety
+  requires wfv(other)
+  ensures small: other.flag == SMALL_INT_FLAG ==> (ret <==> i == wrapS64(other.data))
+  ensures float: other.flag == FLOAT_FLAG && finiteF(other.AsFloat()) ==> (ret <==> real(i) == real(other.AsFloat()))
+  ensures nan: other.flag == FLOAT_FLAG && isNaN(other.AsFloat()) ==> !ret
+
+func (Float).LaxEqual
+  props C18
+  nosafety
+  requires wfv(other)
+  ensures small: other.flag == SMALL_INT_FLAG && finiteF(f) ==> (ret <==> real(f) == real(wrapS64(other.data)))
+  ensures float: other.flag == FLOAT_FLAG && finiteF(f) && finiteF(other.AsFloat()) ==> (ret <==> real(f) == real(other.AsFloat()))
+  ensures nan: isNaN(f) && (other.flag == FLOAT_FLAG || other.flag == SMALL_INT_FLAG) ==> !ret
+
+func (Float).Equal
+  props C18
+  ensures float: other.flag == FLOAT_FLAG && finiteF(f) && finiteF(other.AsFloat()) ==> (ret <==> real(f) == real(other.AsFloat()))
+  ensures other: other.flag != FLOAT_FLAG ==> !ret
+
 // ==== C07: fixed-width integers =============================================================
 // (this block is written by /verif/tools/gen_c07_contracts.py)
 // Reference semantics: two's-complement arithmetic modulo 2^bits.  wrapW reduces a mathematical
